@@ -49,6 +49,10 @@ func (a *zzFakeABI) VerifyTransaction(req *labi.VerifyTransactionRequest) (*labi
 }
 
 func (a *zzFakeABI) ExecuteTransaction(req *labi.ExecuteTransactionRequest) (*labi.ExecuteTransactionResponse, error) {
+	// like the real in-process application (framework.ABIHandler.ExecuteTransaction) the scripted one READS the
+	// consensus parameters of the request: an engine that leaves them out crashes here (defect found on the real
+	// handler by zzH_C16_abi_exec_engine_request)
+	_ = req.Consensus.ImplyMaxPrevote
 	i := int(req.Transaction.ID[0])
 	e := a.t.I32(a.t.Name("execute", i))
 	a.t.Assume(a.t.And(e >= -1, e <= 2))
@@ -185,7 +189,7 @@ func zzH_C15_select_by_fee(t *zzT) {
 	maxSize := t.Int("maxSize")
 	t.Assume(t.And(maxSize >= 0, maxSize <= 1<<22))
 	fake := &zzFakeABI{t: t, two: t.Param("verdicts", 4) < 4}
-	exec := &stateExecuter{client: fake, contextID: codec.Hex{1}, events: []*blockchain.Event{}}
+	exec := &stateExecuter{client: fake, contextID: codec.Hex{1}, events: []*blockchain.Event{}, abiConsensus: &labi.Consensus{}} // (BeforeTransactionsExecute sets abiConsensus in the real flow)
 	g := &Generator{}
 	header := &blockchain.BlockHeader{}
 
